@@ -13,7 +13,22 @@
   (`Gen.srcScoreOrder = [chars, words, tails, trans, fin, offset, rating, wordLen, charLen]`) and walks down that
   vector component by component (`strict_cons_eq` / `strict_cons_gt`), so a reordering in the source breaks the
   proofs. Titles and queries are arbitrary `Text`s satisfying the tokenizer guarantee `TextOK` whose word
-  structure is fixed by hypotheses on the character lists of the words.
+  structure is fixed by hypotheses on the character lists of the words:
+  * `Typed rt w qt v` — the query word `v` is typed text for the title word `w`: an unfinished prefix of it or the
+    finished whole word, stems within the words (`Lemmas/RankShapes.lean`);
+  * `a.hi < b.lo` — consecutive words are separated by at least one character (the tokenizer splits on
+    separators, so every tokenised text has this; `TextOK` alone only gives `≤`);
+  * "disjoint alphabets" — `∀ c ∈ wchars title x, c ∉ wchars query v`;
+  * content word — `isFunc K w.pos = false`.
+  Numeric hypotheses: `CostsOK K`, `GateNumsOK K`, `JacCapOK K` (`JACCARD_THRESHOLD ≤ 1`), all decided at
+  `Gen.srcConsts` (`_src` corollaries). No hypothesis on the ratings except in (f1)/(f2).
+
+  Observation made while proving (e)/(d) (model evaluated with `#eval`, constants of the source): for the title
+  "i absolute" and the query "absolute" the joined-record-words closure of `text_match` fires on the filler
+  ("i absolut" is within distance 1.5 of "absolute"), leaving the matches `i` (typos 0.2) and `absolut`
+  (typos 1.3) and the score vector `[2, 2, -1, 0, 0, 0, …]` instead of the exact match of "absolute" at offset 1
+  (`[8, 1, 0, 0, 1, -1, …]`). Rules (e) and (d) still hold in that case (`chars` decides instead of
+  `offset` / `trans`); the theorems below cover both branches (`join_chars_lt`).
 -/
 import LucidProofs.Lemmas.RankShapes
 
@@ -31,6 +46,12 @@ theorem C08_identical_titles_rating (K : Consts) (q : Text) (r1 r2 : Record)
     (strict_cons_eq rfl (strict_cons_gt ?_))))))
   omega
 
+theorem C08_identical_titles_rating_src (q : Text) (r1 r2 : Record)
+    (htitle : r1.title = r2.title) (hrating : r2.rating < r1.rating) :
+    Outranks (scoreHit Gen.srcConsts Gen.srcScoreOrder q r1) (scoreHit Gen.srcConsts Gen.srcScoreOrder q r2) :=
+  C08_identical_titles_rating Gen.srcConsts q r1 r2 htitle hrating
+
+/-- non-vacuity of (f1): the same title "hello" with ratings 5 and 3, query "hel" -/
 example : Outranks
     (scoreHit Gen.srcConsts Gen.srcScoreOrder C05Example.exQ { ix := 0, id := 7, title := C05Example.exT, rating := 5 })
     (scoreHit Gen.srcConsts Gen.srcScoreOrder C05Example.exQ { ix := 1, id := 8, title := C05Example.exT, rating := 3 }) :=
@@ -272,5 +293,308 @@ theorem C08_adjacent_beats_gap_src (q : Text) (r1 r2 : Record) (a1 b1 c1 a2 b2 c
     Outranks (scoreHit Gen.srcConsts Gen.srcScoreOrder q r1) (scoreHit Gen.srcConsts Gen.srcScoreOrder q r2) :=
   C08_adjacent_beats_gap Gen.srcConsts costsOK_src gateNumsOK_src jacCapOK_src q r1 r2 a1 b1 c1 a2 b2 c2 q1 q2 h1 h2 hq
     hw1 hw2 hqw hgap1 hgap1' hgap2 hgap2' hqgap hfin1 htu1 htu2 htv1 htv2 hsame hdis hca1 hcb1 hca2
+
+/-- **C08 (a): an exact title word outranks the same word with a typo, whatever the ratings.** One-word titles
+    `w1` (characters `u`) and `w2` (ANY different word that is not longer than `u`: in particular `u` with one
+    substituted letter); one-word query with all characters of `u` typed (finished or not). The exact title
+    scores `chars = |u|`; the other title is either not matched at all (`chars = 0`), or matched with typos
+    (`match_len - 2·⌈typos⌉ ≤ |u| - 2`), or matched on a shorter common prefix (`< |u|`): `chars` decides. -/
+theorem C08_exact_beats_typo (K : Consts) (hK : CostsOK K = true) (hN : GateNumsOK K = true)
+    (q : Text) (r1 r2 : Record) (w1 w2 v : WordShape)
+    (h1 : TextOK r1.title) (h2 : TextOK r2.title) (hq : TextOK q)
+    (hw1 : r1.title.words = [w1]) (hw2 : r2.title.words = [w2]) (hqw : q.words = [v])
+    (htyped : Typed r1.title w1 q v) (hfull : v.len = w1.len)
+    (hlen : w2.len ≤ w1.len) (hne : wchars r2.title w2 ≠ wchars r1.title w1) :
+    Outranks (scoreHit K Gen.srcScoreOrder q r1) (scoreHit K Gen.srcScoreOrder q r2) := by
+  have hw1In : w1 ∈ r1.title.words := by simp [hw1]
+  have hw2In : w2 ∈ r2.title.words := by simp [hw2]
+  have hvIn : v ∈ q.words := by simp [hqw]
+  have hqv : wchars q v = wchars r1.title w1 := by
+    rw [htyped.pre (hq.wordIn hvIn), List.take_of_length_le]
+    rw [wchars_length (h1.wordIn hw1In), hfull]; exact Nat.le_refl _
+  have hpos := (hq.wordIn hvIn).len_pos
+  rw [outranks_iff, textMatch_one K hK hN r1.title q w1 v h1 hq hw1 hqw htyped, scores_single,
+    textMatch_single K r2.title q w2 v hw2 hqw (offsets1 h2 hw2) (offsets1 hq hqw)]
+  simp only [Gen.srcScoreOrder, List.map, scoreOf]
+  refine strict_cons_gt ?_
+  cases hm : wordMatch K r2.title w2 q v with
+  | none => simp [scoreChars]; omega
+  | some p =>
+    exact typo_chars_lt K hK (h2.wordIn hw2In) (hq.wordIn hvIn) (by omega) (by rw [hqv]; exact hne) hm
+
+theorem C08_exact_beats_typo_src (q : Text) (r1 r2 : Record) (w1 w2 v : WordShape)
+    (h1 : TextOK r1.title) (h2 : TextOK r2.title) (hq : TextOK q)
+    (hw1 : r1.title.words = [w1]) (hw2 : r2.title.words = [w2]) (hqw : q.words = [v])
+    (htyped : Typed r1.title w1 q v) (hfull : v.len = w1.len)
+    (hlen : w2.len ≤ w1.len) (hne : wchars r2.title w2 ≠ wchars r1.title w1) :
+    Outranks (scoreHit Gen.srcConsts Gen.srcScoreOrder q r1) (scoreHit Gen.srcConsts Gen.srcScoreOrder q r2) :=
+  C08_exact_beats_typo Gen.srcConsts costsOK_src gateNumsOK_src q r1 r2 w1 w2 v h1 h2 hq hw1 hw2 hqw htyped hfull
+    hlen hne
+
+/-! ### non-vacuity: concrete instances of the hypotheses
+
+Words over pairwise disjoint alphabets: `u` = "hello", `v` = "trick", filler `x` = "zap"; the function word "the"
+(an article) and the content word "theme". Each example applies the `_src` theorem to tokenised titles with the
+LOWER rating on the winning side ("whatever the ratings"), so every hypothesis is met by a concrete instance. -/
+namespace C08Example
+
+/-- "hello" -/
+def tU : Text :=
+  { words := [{ offset := 0, lo := 0, hi := 5, stem := 5, pos := none, fin := true }],
+    source := [104,101,108,108,111], chars := [104,101,108,108,111],
+    classes := [.consonant, .vowel, .consonant, .consonant, .vowel] }
+
+theorem tU_ok : TextOK tU where
+  lens := by decide
+  offsets := by decide
+  bounds := by decide
+  ordered := by intro i h; simp [tU] at h
+  stems := by decide
+
+/-- "helloxy" -/
+def tUtail : Text :=
+  { words := [{ offset := 0, lo := 0, hi := 7, stem := 7, pos := none, fin := true }],
+    source := [104,101,108,108,111,120,121], chars := [104,101,108,108,111,120,121],
+    classes := [.consonant, .vowel, .consonant, .consonant, .vowel, .consonant, .consonant] }
+
+theorem tUtail_ok : TextOK tUtail where
+  lens := by decide
+  offsets := by decide
+  bounds := by decide
+  ordered := by intro i h; simp [tUtail] at h
+  stems := by decide
+
+/-- "hallo" -/
+def tTypo : Text :=
+  { words := [{ offset := 0, lo := 0, hi := 5, stem := 5, pos := none, fin := true }],
+    source := [104,97,108,108,111], chars := [104,97,108,108,111],
+    classes := [.consonant, .vowel, .consonant, .consonant, .vowel] }
+
+theorem tTypo_ok : TextOK tTypo where
+  lens := by decide
+  offsets := by decide
+  bounds := by decide
+  ordered := by intro i h; simp [tTypo] at h
+  stems := by decide
+
+/-- "hello zap" -/
+def tUX : Text :=
+  { words := [{ offset := 0, lo := 0, hi := 5, stem := 5, pos := none, fin := true },
+              { offset := 1, lo := 6, hi := 9, stem := 3, pos := none, fin := true }],
+    source := [104,101,108,108,111,32,122,97,112], chars := [104,101,108,108,111,32,122,97,112],
+    classes := [.consonant, .vowel, .consonant, .consonant, .vowel, .whitespace, .consonant, .vowel, .consonant] }
+
+theorem tUX_ok : TextOK tUX where
+  lens := by decide
+  offsets := by decide
+  bounds := by decide
+  ordered := by
+    intro i h
+    have hi : i = 0 := by simp [tUX] at h; omega
+    subst hi; decide +revert
+  stems := by decide
+
+/-- "zap hello" -/
+def tXU : Text :=
+  { words := [{ offset := 0, lo := 0, hi := 3, stem := 3, pos := none, fin := true },
+              { offset := 1, lo := 4, hi := 9, stem := 5, pos := none, fin := true }],
+    source := [122,97,112,32,104,101,108,108,111], chars := [122,97,112,32,104,101,108,108,111],
+    classes := [.consonant, .vowel, .consonant, .whitespace, .consonant, .vowel, .consonant, .consonant, .vowel] }
+
+theorem tXU_ok : TextOK tXU where
+  lens := by decide
+  offsets := by decide
+  bounds := by decide
+  ordered := by
+    intro i h
+    have hi : i = 0 := by simp [tXU] at h; omega
+    subst hi; decide +revert
+  stems := by decide
+
+/-- "hello trick" -/
+def tUV : Text :=
+  { words := [{ offset := 0, lo := 0, hi := 5, stem := 5, pos := none, fin := true },
+              { offset := 1, lo := 6, hi := 11, stem := 5, pos := none, fin := true }],
+    source := [104,101,108,108,111,32,116,114,105,99,107], chars := [104,101,108,108,111,32,116,114,105,99,107],
+    classes := [.consonant, .vowel, .consonant, .consonant, .vowel, .whitespace, .consonant, .consonant, .vowel, .consonant, .consonant] }
+
+theorem tUV_ok : TextOK tUV where
+  lens := by decide
+  offsets := by decide
+  bounds := by decide
+  ordered := by
+    intro i h
+    have hi : i = 0 := by simp [tUV] at h; omega
+    subst hi; decide +revert
+  stems := by decide
+
+/-- "hello trick zap" -/
+def tUVX : Text :=
+  { words := [{ offset := 0, lo := 0, hi := 5, stem := 5, pos := none, fin := true },
+              { offset := 1, lo := 6, hi := 11, stem := 5, pos := none, fin := true },
+              { offset := 2, lo := 12, hi := 15, stem := 3, pos := none, fin := true }],
+    source := [104,101,108,108,111,32,116,114,105,99,107,32,122,97,112], chars := [104,101,108,108,111,32,116,114,105,99,107,32,122,97,112],
+    classes := [.consonant, .vowel, .consonant, .consonant, .vowel, .whitespace, .consonant, .consonant, .vowel, .consonant, .consonant, .whitespace, .consonant, .vowel, .consonant] }
+
+theorem tUVX_ok : TextOK tUVX where
+  lens := by decide
+  offsets := by decide
+  bounds := by decide
+  ordered := by
+    intro i h
+    have hi : i = 0 ∨ i = 1 := by simp [tUVX] at h; omega
+    rcases hi with rfl | rfl <;> decide +revert
+  stems := by decide
+
+/-- "hello zap trick" -/
+def tUXV : Text :=
+  { words := [{ offset := 0, lo := 0, hi := 5, stem := 5, pos := none, fin := true },
+              { offset := 1, lo := 6, hi := 9, stem := 3, pos := none, fin := true },
+              { offset := 2, lo := 10, hi := 15, stem := 5, pos := none, fin := true }],
+    source := [104,101,108,108,111,32,122,97,112,32,116,114,105,99,107], chars := [104,101,108,108,111,32,122,97,112,32,116,114,105,99,107],
+    classes := [.consonant, .vowel, .consonant, .consonant, .vowel, .whitespace, .consonant, .vowel, .consonant, .whitespace, .consonant, .consonant, .vowel, .consonant, .consonant] }
+
+theorem tUXV_ok : TextOK tUXV where
+  lens := by decide
+  offsets := by decide
+  bounds := by decide
+  ordered := by
+    intro i h
+    have hi : i = 0 ∨ i = 1 := by simp [tUXV] at h; omega
+    rcases hi with rfl | rfl <;> decide +revert
+  stems := by decide
+
+/-- "the" -/
+def tThe : Text :=
+  { words := [{ offset := 0, lo := 0, hi := 3, stem := 3, pos := some Pos.article, fin := true }],
+    source := [116,104,101], chars := [116,104,101],
+    classes := [.consonant, .consonant, .vowel] }
+
+theorem tThe_ok : TextOK tThe where
+  lens := by decide
+  offsets := by decide
+  bounds := by decide
+  ordered := by intro i h; simp [tThe] at h
+  stems := by decide
+
+/-- "theme" -/
+def tTheme : Text :=
+  { words := [{ offset := 0, lo := 0, hi := 5, stem := 5, pos := none, fin := true }],
+    source := [116,104,101,109,101], chars := [116,104,101,109,101],
+    classes := [.consonant, .consonant, .vowel, .consonant, .vowel] }
+
+theorem tTheme_ok : TextOK tTheme where
+  lens := by decide
+  offsets := by decide
+  bounds := by decide
+  ordered := by intro i h; simp [tTheme] at h
+  stems := by decide
+
+/-- "hello" -/
+def qU : Text :=
+  { words := [{ offset := 0, lo := 0, hi := 5, stem := 5, pos := none, fin := false }],
+    source := [104,101,108,108,111], chars := [104,101,108,108,111],
+    classes := [.consonant, .vowel, .consonant, .consonant, .vowel] }
+
+theorem qU_ok : TextOK qU where
+  lens := by decide
+  offsets := by decide
+  bounds := by decide
+  ordered := by intro i h; simp [qU] at h
+  stems := by decide
+
+/-- "hel" -/
+def qHel : Text :=
+  { words := [{ offset := 0, lo := 0, hi := 3, stem := 3, pos := none, fin := false }],
+    source := [104,101,108], chars := [104,101,108],
+    classes := [.consonant, .vowel, .consonant] }
+
+theorem qHel_ok : TextOK qHel where
+  lens := by decide
+  offsets := by decide
+  bounds := by decide
+  ordered := by intro i h; simp [qHel] at h
+  stems := by decide
+
+/-- "hello trick" -/
+def qUV : Text :=
+  { words := [{ offset := 0, lo := 0, hi := 5, stem := 5, pos := none, fin := true },
+              { offset := 1, lo := 6, hi := 11, stem := 5, pos := none, fin := false }],
+    source := [104,101,108,108,111,32,116,114,105,99,107], chars := [104,101,108,108,111,32,116,114,105,99,107],
+    classes := [.consonant, .vowel, .consonant, .consonant, .vowel, .whitespace, .consonant, .consonant, .vowel, .consonant, .consonant] }
+
+theorem qUV_ok : TextOK qUV where
+  lens := by decide
+  offsets := by decide
+  bounds := by decide
+  ordered := by
+    intro i h
+    have hi : i = 0 := by simp [qUV] at h; omega
+    subst hi; decide +revert
+  stems := by decide
+
+/-- "the" -/
+def qThe : Text :=
+  { words := [{ offset := 0, lo := 0, hi := 3, stem := 3, pos := some Pos.article, fin := false }],
+    source := [116,104,101], chars := [116,104,101],
+    classes := [.consonant, .consonant, .vowel] }
+
+theorem qThe_ok : TextOK qThe where
+  lens := by decide
+  offsets := by decide
+  bounds := by decide
+  ordered := by intro i h; simp [qThe] at h
+  stems := by decide
+
+
+abbrev C := Gen.srcConsts
+abbrev O := Gen.srcScoreOrder
+
+/-- (c) "hello" (rating 0) outranks "helloxy" (rating 1000) for the typed prefix "hel" … -/
+example : Outranks (scoreHit C O qHel ⟨0, 1, tU, 0⟩) (scoreHit C O qHel ⟨1, 2, tUtail, 1000⟩) :=
+  C08_word_beats_longer_word_src qHel _ _ _ _ _ tU_ok tUtail_ok qHel_ok rfl rfl rfl rfl
+    (by unfold Typed; decide) (by decide) (by decide) (by decide)
+
+/-- … and for the full word "hello" -/
+example : Outranks (scoreHit C O qU ⟨0, 1, tU, 0⟩) (scoreHit C O qU ⟨1, 2, tUtail, 1000⟩) :=
+  C08_word_beats_longer_word_src qU _ _ _ _ _ tU_ok tUtail_ok qU_ok rfl rfl rfl rfl
+    (by unfold Typed; decide) (by decide) (by decide) (by decide)
+
+/-- (g) query "the": the title "theme" (rating 0) outranks the title "the" (rating 1000) -/
+example : Outranks (scoreHit C O qThe ⟨0, 1, tTheme, 0⟩) (scoreHit C O qThe ⟨1, 2, tThe, 1000⟩) :=
+  C08_content_word_beats_function_word_src qThe _ _ _ _ _ tTheme_ok tThe_ok qThe_ok rfl rfl rfl
+    (by unfold Typed; decide) (by unfold Typed; decide) (by decide) (by decide)
+
+/-- (f2) equal ratings: "hello" outranks "hello zap" for the query "hello" -/
+example : Outranks (scoreHit C O qU ⟨0, 1, tU, 7⟩) (scoreHit C O qU ⟨1, 2, tUX, 7⟩) :=
+  C08_shorter_title_equal_rating_src qU _ _ _ _ _ _ tU_ok tUX_ok qU_ok rfl rfl rfl (by decide)
+    (by unfold Typed; decide) (by unfold Typed; decide) (by decide) (by decide) (by decide) rfl
+
+/-- (e) "hello zap" (rating 0) outranks "zap hello" (rating 1000) for the query "hello" -/
+example : Outranks (scoreHit C O qU ⟨0, 1, tUX, 0⟩) (scoreHit C O qU ⟨1, 2, tXU, 1000⟩) :=
+  C08_early_beats_late_src qU _ _ _ _ _ _ _ tUX_ok tXU_ok qU_ok rfl rfl rfl (by decide) (by decide)
+    (by unfold Typed; decide) (by unfold Typed; decide) (by decide) (by decide) (by decide)
+
+/-- (b) "hello trick" (rating 0) outranks "hello zap" (rating 1000) for the query "hello trick" -/
+example : Outranks (scoreHit C O qUV ⟨0, 1, tUV, 0⟩) (scoreHit C O qUV ⟨1, 2, tUX, 1000⟩) :=
+  C08_both_words_beat_one_src qUV _ _ _ _ _ _ _ _ tUV_ok tUX_ok qUV_ok rfl rfl rfl (by decide) (by decide) (by decide)
+    rfl (by unfold Typed; decide) (by unfold Typed; decide) (by unfold Typed; decide) (by decide) (by decide) (by decide)
+
+/-- (d) "hello trick zap" (rating 0) outranks "hello zap trick" (rating 1000) for the query "hello trick" -/
+example : Outranks (scoreHit C O qUV ⟨0, 1, tUVX, 0⟩) (scoreHit C O qUV ⟨1, 2, tUXV, 1000⟩) :=
+  C08_adjacent_beats_gap_src qUV _ _ _ _ _ _ _ _ _ _ tUVX_ok tUXV_ok qUV_ok rfl rfl rfl
+    (by decide) (by decide) (by decide) (by decide) (by decide) rfl
+    (by unfold Typed; decide) (by unfold Typed; decide) (by unfold Typed; decide) (by unfold Typed; decide)
+    (by decide) (by decide) (by decide) (by decide) (by decide)
+
+/-- (a) "hello" (rating 0) outranks "hallo" (rating 1000) for the query "hello" -/
+example : Outranks (scoreHit C O qU ⟨0, 1, tU, 0⟩) (scoreHit C O qU ⟨1, 2, tTypo, 1000⟩) :=
+  C08_exact_beats_typo_src qU _ _ _ _ _ tU_ok tTypo_ok qU_ok rfl rfl rfl (by unfold Typed; decide) (by decide)
+    (by decide) (by decide)
+
+/-- the numeric hypotheses are met by the constants generated from the source -/
+example : CostsOK C = true ∧ GateNumsOK C = true ∧ JacCapOK C = true := ⟨costsOK_src, gateNumsOK_src, jacCapOK_src⟩
+
+end C08Example
 
 end Lucid
